@@ -463,7 +463,7 @@ fn run_builder(scn: &TabScenario, mask: Mask, res: &mut TabResult) -> Check {
     let mut burst: u32 = 1_000_000;
     for (k, (client, op)) in scn.ops.iter().enumerate() {
         probe("events.builder_call");
-        let mut register = |b: &mut PortableRegistryBuilder,
+        let register = |b: &mut PortableRegistryBuilder,
                             model: &mut Model<PType>,
                             v: &PType,
                             what: &str|
